@@ -6,6 +6,7 @@ mod bulk;
 mod fsck_glue;
 mod hist;
 mod profiles;
+mod rcgrow;
 mod sweep;
 
 use pv::{run::main_entry, Ctx, Report, Rng, Spec, Tier};
